@@ -445,25 +445,34 @@ def run_variant(ctx, exe, oracle, cases, D, variant, sample_every=1):
     env = {'ASAN_OPTIONS': 'detect_leaks=1:abort_on_error=0:exitcode=99', 'UBSAN_OPTIONS': 'print_stacktrace=1:halt_on_error=1'}
     out, fails = vf.par_lines(exe, lines, timeout=1500, env=env, chunk=max(1, len(lines) // (vf.NPROC * 4) + 1))
     failures = []
-    bad_shards = set()
-    if fails:
-        # a crashed shard: rerun its lines one by one to find the crashing input
+    rounds = 0
+    while fails and rounds < 6:
+        # a crashed shard: find the crashing input line, report it, drop it and run the rest again
+        rounds += 1
+        crashing = set()
         for shard, rc, err, got in fails:
-            for ln in shard:
-                bad_shards.add(ln)
-            start = len(got) - 1 if got else 0
-            for ln in shard[max(0, start - 1):][:200]:
+            start = max(0, (len(got) if got else 0) - 1)
+            found = False
+            for ln in shard[start:start + 50]:
                 p = vf.run_lines(exe, [ln], timeout=120, env=env)
                 if p.returncode != 0 or not p.stdout.strip():
-                    cmd = ln.split()[0]
-                    failures.append(dict(cmd=cmd, line=ln, info={}, variant=variant,
-                                         why='harness %s crashed / sanitizer report (rc=%s): %s' % (variant, p.returncode, p.stderr[-600:])))
+                    rep = [l.strip() for l in p.stderr.splitlines()
+                           if 'ERROR: AddressSanitizer' in l or 'runtime error' in l or 'SUMMARY' in l or l.strip().startswith(('#0 ', '#1 ', '#2 ', '#3 '))]
+                    failures.append(dict(cmd=ln.split()[0], line=ln, info={}, variant=variant,
+                                         why='harness %s crashed / sanitizer report (rc=%s): %s' % (variant, p.returncode, ' | '.join(rep)[:700] or p.stderr[-400:])))
+                    crashing.add(ln)
+                    found = True
                     break
-            else:
-                failures.append(dict(cmd='?', line=shard[0], info={}, variant=variant,
-                                     why='harness %s shard failed rc=%s: %s' % (variant, rc, err[-400:])))
-        if len(out) != len(lines):
-            return failures, 0
+            if not found:
+                failures.append(dict(cmd=shard[0].split()[0], line=shard[start] if start < len(shard) else shard[0], info={}, variant=variant,
+                                     why='harness %s shard failed rc=%s (not reproducible on single lines): %s' % (variant, rc, err[-400:])))
+                crashing.update(shard)
+        cases = [c for c in cases if c[1] not in crashing]
+        lines = [c[1] for c in cases]
+        out, fails = vf.par_lines(exe, lines, timeout=1500, env=env, chunk=max(1, len(lines) // (vf.NPROC * 4) + 1))
+    if fails or len(out) != len(lines):
+        ctx.log('%s: giving up after %d crash rounds' % (variant, rounds))
+        return failures, 0
     ck = Checker(D)
     pairs = {}
     for idx, ((cmd, line, info), res) in enumerate(zip(cases, out)):
@@ -648,8 +657,13 @@ def run(ctx):
         ik = INFO_KEY.get(key, key)
         pref = [c for c in cands if ik in c['info'] and NONDEFAULT.get(key, lambda v: True)(c['info'][ik])]
         pick = (pref or cands or [None])[0]
-        what = ('%s: callee formal `%s` of %s does not receive the export parameter of the same meaning (or its documented default) '
-                '[translated table, %s build]' % (fn, key, row['callee'], row['config']))
+        if row['callee'] == 'not-forwarded':
+            what = '%s: export parameter `%s` is not forwarded (correctly) to any native callee [translated table, %s build]' % (fn, key, row['config'])
+        elif key == 'callee':
+            what = '%s does not call %s [translated table, %s build]' % (fn, row['callee'], row['config'])
+        else:
+            what = ('%s: callee formal `%s` of %s does not receive the export parameter of the same meaning (or its documented default) '
+                    '[translated table, %s build]' % (fn, key, row['callee'], row['config']))
         if pick:
             ctx.violation(vk, what + '; differential input: ' + pick['why'][:300],
                           replay=dict(kind='line', variant=pick['variant'], line=pick['line'], args=pick['info'], row=row))
